@@ -5,6 +5,7 @@ import (
 	"strings"
 
 	"github.com/goatcms/goatcore/varutil/goaterr"
+	"github.com/goatcms/goatcore/varutil/verifhook"
 )
 
 // removeByPath remove node by path
@@ -39,6 +40,7 @@ func removeNodeByNodePath(d *Dir, nodePath []string, emptyOnly bool) (err error)
 		if len(lastDir.nodes) != 0 {
 			return goaterr.Errorf("Can not remove empty node")
 		}
+		verifhook.Yield("memfs.remove.gap")
 		return dirNode.removeNodeByName(lastNodeName)
 	}
 	return dirNode.removeNodeByName(lastNodeName)
